@@ -9,6 +9,7 @@ import time
 
 VERIF = os.path.dirname(os.path.dirname(os.path.abspath(__file__)))
 sys.path.insert(0, VERIF)
+import vk  # noqa: E402,F401  (repository under test first on sys.path)
 sys.setrecursionlimit(20000)
 
 
